@@ -163,6 +163,7 @@ impl Engine for C06 {
                 cfg.seed = c.below(5);
                 (format!("corpus:{name}"), Doc(bytes.clone()), cfg)
             }
+            2 if index % 16 == 2 => ("failing:limit".to_string(), Doc::from_str(&docgen::limit_hitting_doc(&mut w)), Cfg::default()),
             2 => {
                 let (d, why) = docgen::failing_doc(&mut w);
                 (format!("failing:{why}"), Doc::from_str(&d), docgen::draw_cfg(&mut c, false))
@@ -285,6 +286,17 @@ impl Engine for C06 {
                 repeats: 0,
                 env: envs,
                 stack_mib: 0,
+                interfere: 0,
+            });
+        }
+        if index % 2 == 0 {
+            incs.push(Inc {
+                kind: "thread-neighbour".into(),
+                entropy: e.next_u64(),
+                clock_ns: clock + 55_000_000_000,
+                repeats: 0,
+                env: vec![],
+                stack_mib: 8,
                 interfere: 0,
             });
         }
@@ -423,6 +435,94 @@ impl Engine for C06 {
                             res.harness_error = Some(e);
                             return res;
                         }
+                    }
+                }
+                "thread-neighbour" => {
+                    // the transform under test on one simulated thread, a neighbour on another
+                    // which keeps transforming other documents under a configuration as far
+                    // from this one as it can be (every limit raised, every option flipped);
+                    // the turnstile interleaves the two at every element and attribute
+                    use crate::turnstile::{Policy, Sched, Site, Turnstile};
+                    seam::arm(inc.entropy);
+                    seam::set_time(inc.clock_ns);
+                    let policy = match inc.entropy % 3 {
+                        0 => Policy::Uniform,
+                        1 => Policy::Sticky { keep: 12 },
+                        _ => Policy::Pct { d: 3, horizon: 200 },
+                    };
+                    let ts = Turnstile::new(Sched::draw(inc.entropy, policy, 2), 4_000_000);
+                    ts.register(0);
+                    ts.register(1);
+                    let mut far = perturbed(&scn.cfg);
+                    far.depth_limit = 1000;
+                    far.loop_limit = 100_000;
+                    far.var_limit = 1_000_000;
+                    far.seed = scn.cfg.seed.wrapping_add(17);
+                    // (many short transforms, so that the neighbour also STARTS transforms - applies
+                    // its configuration - at every point of the one under test)
+                    let mut neighbour_docs: Vec<Vec<u8>> = vec![scn.other_doc.as_ref().map(|d| d.0.clone()).unwrap_or_default()];
+                    let mut nr = Rng::sub(inc.entropy, "neighbour");
+                    for k in 0..14 {
+                        neighbour_docs.push(match k % 3 {
+                            0 => b"<svg><rect wh=\"1\"/></svg>".to_vec(),
+                            1 => format!("<svg><rect wh=\"{}\" text=\"n{}\"/><circle cxy=\"^@br\" r=\"1\"/></svg>", 1 + nr.below(9), nr.below(99)).into_bytes(),
+                            _ => b"<svg><config border=\"2\"/><var a=\"1\"/><rect wh=\"{{$a + 1}}\" text=\"t\"/></svg>".to_vec(),
+                        });
+                    }
+                    neighbour_docs.push(scn.doc.0.clone());
+                    let hook = |ts: std::sync::Arc<Turnstile>, tid: usize| {
+                        svgdx::verif::set_callback(Some(Box::new(move |site| {
+                            let s = match site {
+                                svgdx::verif::Site::ElemEnter => Site::ElemEnter,
+                                svgdx::verif::Site::ElemExit { .. } => Site::ElemExit,
+                                svgdx::verif::Site::RngDraw => Site::RngDraw,
+                                svgdx::verif::Site::AttrEval => Site::AttrEval,
+                            };
+                            ts.yield_point(tid, s);
+                        })));
+                    };
+                    let (ts0, ts1) = (ts.clone(), ts.clone());
+                    let h0 = std::thread::Builder::new().stack_size(STACK_MAIN).spawn(move || {
+                        ts0.begin(0);
+                        hook(ts0.clone(), 0);
+                        let _ = std::panic::catch_unwind(std::panic::AssertUnwindSafe(|| {
+                            for d in &neighbour_docs {
+                                ts0.yield_point(0, Site::Req);
+                                let _ = fe_stream_plain(d, &far);
+                            }
+                        }));
+                        svgdx::verif::set_callback(None);
+                        ts0.finish(0);
+                    });
+                    let (doc, cfg) = (scn.doc.0.clone(), scn.cfg.clone());
+                    let h1 = std::thread::Builder::new().stack_size(STACK_MAIN).spawn(move || {
+                        ts1.begin(1);
+                        hook(ts1.clone(), 1);
+                        let o = std::panic::catch_unwind(std::panic::AssertUnwindSafe(|| {
+                            ts1.yield_point(1, Site::Req);
+                            fe_stream_plain(&doc, &cfg).0
+                        }));
+                        svgdx::verif::set_callback(None);
+                        ts1.finish(1);
+                        o.unwrap_or(Outcome::Budget)
+                    });
+                    let (h0, h1) = match (h0, h1) {
+                        (Ok(a), Ok(b)) => (a, b),
+                        _ => {
+                            res.harness_error = Some("spawn".into());
+                            return res;
+                        }
+                    };
+                    ts.run();
+                    let _ = h0.join();
+                    let o = h1.join().unwrap_or(Outcome::Budget);
+                    let switches = ts.with_state(|s| s.switches);
+                    res.stats.evaluations += 1;
+                    res.stats.frontend("stream");
+                    res.stats.probe("transform_interleaved_with_a_far_configured_neighbour");
+                    res.stats.probe_n("neighbour_context_switches", switches);
+                    if !matches!(o, Outcome::Budget) {
+                        obs.push((format!("thread-nb#{j}"), inc.entropy, inc.clock_ns, o));
                     }
                 }
                 "server-burst" => {
